@@ -73,7 +73,8 @@ Theorem c19_service_target : forall svc c rl e,
 Proof. exact chain_ctx. Qed.
 
 Theorem c19_header_lists : forall svc c rl t e,
-  (e = EReqTooLarge t \/ e = EReqReadError t \/ e = EUpgraded t \/ exists b, e = EProxied t b) ->
+  (e = EReqTooLarge t \/ e = EReqReadError t \/ e = EUpgraded t \/ (exists b, e = EProxied t b) \/
+   (exists s body, e = EProxiedHints t s body)) ->
   let '(ctx, _, _) := chain svc c rl e in
   lc_req_headers ctx = canonicalize_names (ti_log_req t) /\
   lc_resp_headers ctx = canonicalize_names (ti_log_resp t).
@@ -86,13 +87,29 @@ Proof. exact chain_header_lists. Qed.
     header block (then the client gets no complete response; the record shows
     the target's status, or the default 200 if the response was being
     buffered and nothing had been passed on). *)
-Theorem c19_chain_status : forall svc c rl e,
+Theorem c19_chain_status_partial : forall svc c rl e,
   (forall t s body, e = EProxied t (TBRespond s body) -> final_status s) ->
   (forall t s sent f, e = EProxied t (TBFailAfter s sent f) -> final_status s) ->
+  (forall t s body, e = EProxiedHints t s body -> final_status s /\ c_buffer_resp c = false) ->
   let '(_, ops, _) := chain svc c rl e in
   lw_status (lw_run ops) = ending_status c e /\
   ((forall t s sent f, e <> EProxied t (TBFailAfter s sent f)) -> client_status ops = ending_status c e).
 Proof. exact chain_status. Qed.
+
+(** The extra hypothesis on responses preceded by 103 Early Hints is needed:
+    with response buffering the buffered writer keeps the FIRST WriteHeader, so
+    the record says 103 and the client is told an implicit 200, whatever the
+    target's final status was (a defect of response_buffer_middleware.go, see
+    known_findings/C19.json F3 and fixes/C19-buffered-informational-status.patch). *)
+Theorem c19_chain_status_refuted : forall svc rl t s body,
+  body <> [] ->
+  let c := mkCfg true 1048576 0 None [] in
+  let '(_, ops, _) := chain svc c rl (EProxiedHints t s body) in
+  lw_status (lw_run ops) = 103 /\ client_status ops = 200.
+Proof.
+  intros svc rl t s body Hne. cbv zeta.
+  apply (buffered_hints svc (mkCfg true 1048576 0 None []) rl t s body); auto.
+Qed.
 
 (** The chain ends in a panic exactly for a failure after the header block;
     the record is still written (c19_exactly_one). *)
@@ -151,6 +168,7 @@ Print Assumptions c19_exactly_one.
 Print Assumptions c19_fields.
 Print Assumptions c19_service_target.
 Print Assumptions c19_header_lists.
-Print Assumptions c19_chain_status.
+Print Assumptions c19_chain_status_partial.
+Print Assumptions c19_chain_status_refuted.
 Print Assumptions c19_panic_iff.
 Print Assumptions c19_extra_headers.
